@@ -296,8 +296,16 @@ def main():
 
     def gdn_float(x):
         s = repr(float(x))
-        if "e" in s or "E" in s or "inf" in s or "nan" in s:
+        if "inf" in s or "nan" in s:
             return None
+        if "e" in s or "E" in s:
+            # Garden has no exponent syntax: write the shortest round-trip digits out positionally
+            import decimal
+            s = format(decimal.Decimal(s), "f")
+            if "." not in s:
+                s += ".0"
+            if len(s) > 400:
+                return None
         return s if x >= 0 and not s.startswith("-") else f"(0.0 -. {s[1:]})"
 
     for kind in fkinds:
